@@ -8,6 +8,7 @@ import (
 	"github.com/go-kid/ioc/container/support"
 	"github.com/go-kid/ioc/zzverif/models"
 	"github.com/go-kid/ioc/zzverif/nd"
+	"strconv"
 )
 
 // VAL harness: the real valueAware (value + prop shorthand), propertiesAware (prefix)
@@ -20,6 +21,7 @@ type vValHolder struct {
 	C string // literal: value:"<s>" (property built with the symbolic text)
 	D string `prefix:"k"`
 	E string `value:"${k},required=false"`
+	G string `value:"v${k}w"` // the configured string inside surrounding literal text
 }
 
 func vASCIIValue(s string) bool {
@@ -67,7 +69,7 @@ func VerifC17String() {
 		}
 	}
 	props := meta.GetConfigurationProperties()
-	nd.Assert(len(props) == 5, "C11: one configuration property per tagged field")
+	nd.Assert(len(props) == 6, "C11: one configuration property per tagged field")
 	for _, p := range []container.InstantiationAwareComponentPostProcessor{cq, pa, va} {
 		_, err := p.PostProcessProperties(props, h, "h")
 		if err != nil {
@@ -79,6 +81,7 @@ func VerifC17String() {
 	nd.Cover("bound")
 	nd.Observe("fields", h.A, h.B, h.C, h.D)
 	nd.Assert(h.D == s, "C17: binding by prefix gives the field exactly the configured string")
+	nd.Assert(h.G == "v"+s+"w", "C17: a configured string substituted into surrounding literal text arrives unchanged")
 	nd.Assert(h.A == s, "C17: binding through a value placeholder gives the same result as binding by prefix")
 	nd.Assert(h.B == s, "C17: binding through the prop shorthand gives the same result as binding by prefix")
 	nd.Assert(h.C == s, "C17: a literal written in a value tag is bound as written")
@@ -159,6 +162,7 @@ type vScalarHolder struct {
 	IX int64   `prefix:"i"`
 	FV float64 `value:"${f}"`
 	FX float64 `prefix:"f"`
+	SX string  `prefix:"i"` // an integer bound by prefix to a string field: its decimal text
 }
 
 func VerifC17Scalars() {
@@ -186,9 +190,74 @@ func VerifC17Scalars() {
 	}
 	nd.Observe("ints", int(h.IV), int(h.IP), int(h.IX))
 	nd.Assert(h.IX == int64(iv), "C17: binding by prefix gives the field exactly the configured integer")
+	nd.Assert(h.SX == strconv.Itoa(iv), "C17: an integer bound by prefix to a string field arrives as its decimal text")
 	nd.Assert(h.IV == int64(iv), "C17: an integer bound through a value placeholder equals the configured integer")
 	nd.Assert(h.IP == int64(iv), "C17: an integer bound through the prop shorthand equals the configured integer")
 	nd.Assert(h.FX == fv, "C17: binding by prefix gives the field exactly the configured float")
 	nd.Assert(h.FV == fv, "C17: a float bound through a value placeholder equals the configured float")
 	nd.Cover("scalars bound")
+}
+
+// C09 (configuration part, several values on one component): every required value is checked,
+// whatever optional values are declared before it - also through an embedded struct and through
+// the prop shorthand.
+type vSeqInner struct {
+	EO string `value:"${ke},required=false"`
+}
+
+type vSeqHolder struct {
+	vSeqInner
+	O1 string `value:"${k1},required=false"`
+	P1 string `prop:"k1,required=false"`
+	V  string `value:"${k2}"`
+	O2 string `value:"${k1},required=false"`
+	R  string `prop:"k3"`
+	// prop shorthand without a default whose argument values contain the key/default separator
+	T string `prop:"k9,note=a:b c:d,required=false"`
+}
+
+func VerifC09ValueSequence() {
+	cfg := &vCfg{}
+	s := nd.Bytes(1)
+	nd.Assume(s[0] >= 'g' && s[0] <= 'z')
+	have2, have3 := nd.Bool(), nd.Bool()
+	if have2 {
+		cfg.keys, cfg.vals = append(cfg.keys, "k2"), append(cfg.vals, any(s))
+	}
+	if have3 {
+		cfg.keys, cfg.vals = append(cfg.keys, "k3"), append(cfg.vals, any(s))
+	}
+	reg := support.DefaultDefinitionRegistry()
+	va := NewValueAwarePostProcessors().(*valueAwarePostProcessors)
+	cq := vQuoteProc(cfg)
+	h := &vSeqHolder{}
+	nd.Assert(va.PostProcessDefinitionRegistry(reg, h, "h") == nil, "scan ok")
+	props := reg.GetMetaByName("h").GetConfigurationProperties()
+	nd.Assert(len(props) == 7, "C11: one configuration property per tagged field, embedded ones included")
+	for _, p := range props {
+		if p.StructField.Name == "T" {
+			note, _ := p.Args().Find("note")
+			nd.Assert(p.TagVal == "${k9}" && !p.IsRequired() && len(note) == 2 && note[0] == "a:b" && note[1] == "c:d",
+				"C19: the prop shorthand splits value and arguments at the first top-level comma, whatever the argument values contain")
+		}
+	}
+	var err error
+	panicked := nd.Catch(func() {
+		for _, p := range []container.InstantiationAwareComponentPostProcessor{cq, va} {
+			if _, e := p.PostProcessProperties(props, h, "h"); e != nil {
+				err = e
+				return
+			}
+		}
+	})
+	nd.Assert(!panicked, "C09: an unsatisfied configuration value never panics")
+	if have2 && have3 {
+		nd.Cover("all required values present")
+		nd.Assert(err == nil, "C09: optional values that cannot be satisfied never cause a failure")
+		nd.Assert(h.V == s && h.R == s, "C09: a configured value is bound")
+		nd.Assert(h.O1 == "" && h.P1 == "" && h.O2 == "" && h.EO == "" && h.T == "", "C09: an optional value that cannot be satisfied leaves its field at the zero value")
+		return
+	}
+	nd.Cover("a required value is missing after optional ones")
+	nd.Assert(err != nil, "C09: a required configuration value that cannot be satisfied is reported, whatever optional values precede it")
 }
